@@ -49,8 +49,8 @@ ASSUMPTIONS = [
     "canonical form skips only the declared metadata of vlib.canon.SKIP",
     "Project.run_optimization is dead code (optim_ins.make no longer exists) and is out of scope",
 ]
-BUDGET = {"quick": 640, "thorough": 40000}
-TIME_CAP = {"quick": 70, "thorough": 1150}
+BUDGET = {"quick": 480, "thorough": 32000}
+TIME_CAP = {"quick": 65, "thorough": 1150}
 TOL = 1e-9
 INF = math.inf
 
@@ -60,16 +60,21 @@ POPSEL = "measurable/population-selection-rejected"
 # --------------------------------------------------------------------------- strategies
 
 
+def _one_in(draw, n):
+    """True with probability 1/n (st.integers over-samples its end points; sampled_from does not)"""
+    return draw(st.sampled_from([False] * (n - 1) + [True]))
+
+
 def _settings(draw, c, allow_shift):
     s = {"start": c["start"], "end": draw(st.sampled_from([2020.0, 2021.0, 2022.0, 2023.0])), "dt": draw(st.sampled_from([1.0, 0.5, 0.25, 0.25, 0.2, 0.3, 0.1]))}
-    if allow_shift and draw(st.integers(0, 3)) == 0:
+    if allow_shift and _one_in(draw, 4):
         s["shift"] = draw(st.sampled_from([0.5, 0.3, 0.25, 0.1]))
     return s
 
 
 def _pops(draw, c, p_sel=4):
     """None (all populations) most of the time, else a non-empty list of population names"""
-    if draw(st.integers(0, p_sel - 1)) != 0:
+    if not _one_in(draw, p_sel):
         return None
     pops = c["pops"]
     k = draw(st.integers(1, len(pops)))
@@ -80,7 +85,7 @@ def _tspec(draw, s, from_year):
     n = H.grid_size(s["start"], s["end"], s["dt"])
     if draw(st.booleans()):
         k0 = min(n - 1, max(0, int(math.ceil((from_year - s["start"]) / s["dt"] - 1e-9))))
-        return {"idx": draw(st.integers(k0, n - 1))}
+        return {"idx": draw(st.one_of(st.integers(k0, n - 1), st.integers(min(n - 1, k0 + int(round(1.0 / s["dt"]))), n - 1)))}
     lo = from_year + draw(st.sampled_from([0.0, 0.0, 1.0, 0.5, 0.13, -1.0]))
     hi = draw(st.sampled_from(["inf", "inf", lo + 1.0, lo + 2.0, lo + 0.5, lo + 2.37, s["end"]]))
     if hi != "inf" and hi <= lo:
@@ -101,7 +106,7 @@ def _measurables(draw, c, s, from_year):
         name = _quantity(draw, c)
         spend = name in [p for p, _ in c["progs"]]
         out.append({"cls": "min" if spend else draw(st.sampled_from(["min", "max"])), "name": name, "t": _tspec(draw, s, from_year), "pops": None if spend else _pops(draw, c)})
-    if draw(st.integers(0, 2)) == 0:
+    if _one_in(draw, 3):
         cls = draw(st.sampled_from(["atmost", "atleast"]))
         thr = draw(st.sampled_from([1.0, 1.001, 1.05, 2.0, 0.9] if cls == "atmost" else [1.0, 0.999, 0.95, 0.5, 1.1]))
         out.append({"cls": cls, "name": _quantity(draw, c, spend=False), "t": _tspec(draw, s, from_year), "pops": _pops(draw, c), "thr": thr})
@@ -113,7 +118,7 @@ def _alloc(draw, c, start_year):
     vals = {}
     if mode == "dict":
         for p, v in c["progs"]:
-            if draw(st.integers(0, 3)) != 0:
+            if not _one_in(draw, 4):
                 vals[p] = [[start_year], [v * draw(st.sampled_from([0.5, 1.0, 1.0, 2.0]))]]
     elif mode == "series":
         p, v = draw(st.sampled_from(c["progs"]))
@@ -139,7 +144,7 @@ def _adjustments(draw, c, alloc, start_year, finite=False):
     shared = sorted(draw(st.lists(st.sampled_from([start_year, start_year + 1.0, start_year + 2.0]), min_size=1, max_size=2, unique=True)))
     adj = []
     for p in chosen:
-        years = shared if draw(st.integers(0, 3)) != 0 else sorted(draw(st.lists(st.sampled_from([start_year, start_year + 1.0, start_year + 2.0]), min_size=1, max_size=2, unique=True)))
+        years = shared if not _one_in(draw, 4) else sorted(draw(st.lists(st.sampled_from([start_year, start_year + 1.0, start_year + 2.0]), min_size=1, max_size=2, unique=True)))
         limit = draw(st.sampled_from(["abs", "abs", "rel"]))
         lower, upper, initial = [], [], []
         for t in years:
@@ -147,7 +152,7 @@ def _adjustments(draw, c, alloc, start_year, finite=False):
             fl = draw(st.sampled_from([0.0, 0.0, 0.5, 0.9, 1.0]))
             fu = draw(st.sampled_from(([] if finite else ["inf", "inf"]) + [1.0, 1.1, 1.5, 3.0]))
             g = draw(st.sampled_from([None, None, None, None, "lo", "one", "hi"]))
-            if draw(st.integers(0, 29)) == 0:
+            if _one_in(draw, 40):
                 fl = 1.25  # deliberately outside: InvalidInitialConditions expected
             init = None
             if g is not None:
@@ -165,14 +170,14 @@ def _adjustments(draw, c, alloc, start_year, finite=False):
 
 def _budget(draw, small):
     if small:
-        return {"maxiters": draw(st.integers(1, 6)), "via": draw(st.sampled_from(["opt", "args"]))}
-    if draw(st.integers(0, 5)) == 0:
+        return {"maxiters": draw(st.integers(1, small)), "via": draw(st.sampled_from(["opt", "args"]))}
+    if _one_in(draw, 6):
         return {"maxtime": draw(st.sampled_from([0.0, 0.01, 0.05]))}
-    return {"maxiters": draw(st.sampled_from([1, 1, 2, 3, 5, 8, 12, 12, 18, 25, 25])), "via": draw(st.sampled_from(["opt", "args"]))}
+    return {"maxiters": draw(st.sampled_from([1, 2, 3, 5, 8, 12, 12, 18, 18, 25, 25, 25])), "via": draw(st.sampled_from(["opt", "args"]))}
 
 
 @st.composite
-def optimize_cases(draw, kind):
+def optimize_cases(draw, kind, fault_iters=6):
     cat = H.catalogue()
     model = draw(st.sampled_from(H.MODELS))
     c = cat[model]
@@ -211,60 +216,62 @@ def optimize_cases(draw, kind):
         rows = _rows_pure(c, case)
         tot = [None if draw(st.booleans()) else math.fsum(r["x0"] for r in rows if r["t"] == t) * draw(st.sampled_from([0.9, 1.0, 1.1])) for t in ty]
         case["con"] = {"t": ty, "total": tot, "bf": 1.0}
-    case["meas"] = _measurables(draw, c, s, start_year)
-    case["budget"] = _budget(draw, small=(kind == "optimize-fault"))
+    case["meas"] = _measurables(draw, c, s, min(years))  # mostly after the first adjusted year, so that the objective can respond
+    case["budget"] = _budget(draw, small=(fault_iters if kind == "optimize-fault" else 0))
     case["randseed"] = draw(st.integers(0, 2**31 - 1))
-    if draw(st.integers(0, 3)) == 0:
+    if _one_in(draw, 4):
         case["stepsize"] = draw(st.sampled_from([0.3, 0.5, 0.05]))
     return case
 
 
 @st.composite
-def calibrate_cases(draw, kind):
+def calibrate_cases(draw, kind, fault_iters=6):
     cat = H.catalogue()
     model = draw(st.sampled_from(H.MODELS))
     c = cat[model]
     s = _settings(draw, c, min(d[2] for d in c["data"]) >= c["start"] + 0.5)  # the moved start year must stay before the first data point
-    n = draw(st.sampled_from([1, 2, 2, 3]))
-    pars = draw(st.lists(st.sampled_from(c["ypars"]), min_size=n, max_size=n, unique=True))
-    string_adj = draw(st.integers(0, 9)) == 0
-    adj, y0 = [], []
-    for p in pars:
-        if string_adj:
-            adj.append(p)
-            continue
-        pk = draw(st.sampled_from(["pop", "pop", "pop", "none", "all"]))
-        pop = draw(st.sampled_from(c["pops"])) if pk == "pop" else (None if pk == "none" else "all")
-        lo = draw(st.sampled_from([0.1, 0.5, 0.9, 1.0]))
-        hi = draw(st.sampled_from([1.0, 1.1, 2.0, 5.0]))
-        adj.append([p, pop, lo, hi])
-        if draw(st.integers(0, 3)) == 0 and pop not in (None,):
-            y = draw(st.sampled_from([max(lo, 0.8), min(hi, 1.3), lo, hi]))
-            y0.append([p, pop, y])
     dvars = c["data"]
-    string_meas = draw(st.integers(0, 9)) == 0
-    meas = []
     k = draw(st.sampled_from([1, 1, 2, 3]))
     chosen = draw(st.lists(st.sampled_from(dvars), min_size=k, max_size=k, unique_by=lambda d: d[0]))
+    string_meas = _one_in(draw, 10)
+    meas = []
     for q, pn, _, _ in chosen:
         if string_meas:
             meas.append(q)
             continue
-        pop = pn if draw(st.integers(0, 2)) != 0 else None
-        metric = draw(st.sampled_from(["fractional"] * 4 + ["wape"] * 3 + ["meansquare"]))
+        pop = pn if not _one_in(draw, 3) else None
+        metric = draw(st.sampled_from(["fractional"] * 4 + ["wape"] * 3 + ["meansquare"] * 2))
         meas.append([q, pop, draw(st.sampled_from([1.0, 1.0, 0.5, 2.0])), metric])
+    # adjustables: mostly the factor of a measured quantity itself (its data can then be approached), plus unrelated ones
+    coupled = not _one_in(draw, 4)
+    n = draw(st.sampled_from([1, 2, 2, 3]))
+    others = draw(st.lists(st.sampled_from(c["ypars"]), min_size=n, max_size=n, unique=True))
+    pars = ([chosen[0][0]] + [p for p in others if p != chosen[0][0]])[:n] if coupled else others
+    string_adj = _one_in(draw, 10)
+    adj, y0 = [], []
+    for i, p in enumerate(pars):
+        if string_adj:
+            adj.append(p)
+            continue
+        pk = draw(st.sampled_from(["pop", "pop", "pop", "none", "all"]))
+        pop = (chosen[0][1] if (coupled and i == 0) else draw(st.sampled_from(c["pops"]))) if pk == "pop" else (None if pk == "none" else "all")
+        lo = draw(st.sampled_from([0.1, 0.5] if (coupled and i == 0) else [0.1, 0.5, 0.9, 1.0]))
+        hi = draw(st.sampled_from([2.0, 5.0] if (coupled and i == 0) else [1.0, 1.1, 2.0, 5.0]))
+        adj.append([p, pop, lo, hi])
+        if _one_in(draw, 4) and pop is not None and not (coupled and i == 0):
+            y0.append([p, pop, draw(st.sampled_from([max(lo, 0.8), min(hi, 1.3), lo, hi]))])
     targets = []
-    for _ in range(draw(st.sampled_from([0, 1, 2, 3]))):
-        q, pn, t0, _ = draw(st.sampled_from(chosen))
-        t = draw(st.sampled_from([x for x in (2016.5, 2017.0, 2018.0) if x != t0 and x > s["start"] + (s.get("shift") or 0.0)]))
+    for i in range(draw(st.sampled_from([1, 1, 2, 3] if coupled else [0, 1, 2, 3]))):
+        q, pn, t0, _ = chosen[0] if i == 0 else draw(st.sampled_from(chosen))
+        t = draw(st.sampled_from([x for x in (2016.5, 2017.0, 2018.0) if x != t0]))
         targets.append([q, pn, t, draw(st.sampled_from([0.7, 0.9, 1.1, 1.5]))])
     case = {"kind": kind, "model": model, "settings": s, "adj": adj, "y0": y0, "meas": meas, "targets": targets, "randseed": draw(st.integers(0, 2**31 - 1))}
     if kind == "calibrate-fault":
-        case["budget"] = {"maxiters": draw(st.integers(1, 6))}
-    elif draw(st.integers(0, 5)) == 0:
+        case["budget"] = {"maxiters": draw(st.integers(1, fault_iters))}
+    elif _one_in(draw, 8):
         case["budget"] = {"max_time": draw(st.sampled_from([0.0, 0.01, 0.05]))}
     else:
-        case["budget"] = {"maxiters": draw(st.sampled_from([1, 1, 2, 3, 5, 8, 12, 12, 18, 25, 25]))}
+        case["budget"] = {"maxiters": draw(st.sampled_from([1, 2, 3, 5, 8, 12, 12, 18, 18, 25, 25, 25]))}
     return case
 
 
@@ -308,16 +315,17 @@ def differential_cases(draw):
 
 
 def strategy(tier):
+    k = 6 if tier == "quick" else 12  # largest iteration budget of the fault-enumeration problems (the cost is quadratic in it)
     return st.one_of(
         optimize_cases("optimize"),
         optimize_cases("optimize"),
         optimize_cases("optimize"),
-        optimize_cases("optimize-fault"),
-        optimize_cases("optimize-fault"),
+        optimize_cases("optimize-fault", k),
+        optimize_cases("optimize-fault", k),
         calibrate_cases("calibrate"),
         calibrate_cases("calibrate"),
-        calibrate_cases("calibrate-fault"),
-        calibrate_cases("calibrate-fault"),
+        calibrate_cases("calibrate-fault", k),
+        calibrate_cases("calibrate-fault", k),
         optimize_cases("unresolvable"),
         reconcile_cases(),
         differential_cases(),
